@@ -14,6 +14,8 @@ first_missed = {
  'C17-b': 'result histograms had 2 entries; a 3-4 entry joint-multiset obligation was added afterwards',
  'C02-c': 'Pauli measurements were only applied to a bare StateVectorSimulationState; obligation pauli_measurement.simulator (Simulator with split_untangled_states on/off, final state) added afterwards',
  'C02-d': 'confusion maps were single-index only; a joint (two-index, symbolic 4x4) confusion matrix was added to act_on_measure afterwards',
+ 'C03-c': 'BooleanHamiltonianGate was outside the first version of C03; obligation BooleanHamiltonianGate (symbolic angle, 10 expression lists) added afterwards (its docstring had the opposite sign: repaired in /repo 41e230d)',
+ 'C03-d': 'MatrixGate was outside the first version of C03; obligation MatrixGate (symbolic matrix, returned arrays edited by the caller) added afterwards',
  'C19-b': 'the concrete KAK fall-back menu only had gates with interaction (x,0,0); matrix-only gates with generic coefficients added afterwards',
 }
 still = {
